@@ -29,6 +29,7 @@ type c16Op struct {
 	Extra   string         `json:"extra,omitempty"`
 	Id      string         `json:"id"`
 	SysCtx  bool           `json:"system_context"`
+	SysVia  int            `json:"system_context_derivation,omitempty"`
 	Flag    bool           `json:"entity_is_system_flag"`
 	Migrate bool           `json:"migrate,omitempty"`
 	Name    string         `json:"name"`
@@ -68,6 +69,7 @@ func init() {
 				}
 			}
 			return map[string][]string{"combo": want, "flip": {"to-system:plainctx", "to-system:sysctx", "to-ordinary:sysctx", "to-system-migrate:plainctx", "to-system-migrate:sysctx", "child-create-over-system-parent:plainctx"},
+				"system_context_via": {"GetSystemContext", "NewSystemMutateContext", "GetSystemContext twice", "NewSystemMutateContext over a system context", "ordinary after UpdateContext"},
 				"tolerant": {"update:plainctx:sysent", "patch:plainctx:sysent", "delete:plainctx:sysent"}}
 		},
 	})
@@ -154,7 +156,22 @@ func runC16(c *core.Ctx, idx int) {
 	apply := func(ctx boltz.MutateContext, op c16Op) error {
 		use := ctx
 		if op.SysCtx {
-			use = ctx.GetSystemContext()
+			// every way of obtaining a system context from the transaction's context
+			switch op.SysVia {
+			case 0:
+				use = ctx.GetSystemContext()
+			case 1:
+				use = boltz.NewSystemMutateContext(ctx)
+			case 2:
+				use = ctx.GetSystemContext().GetSystemContext()
+			case 3:
+				use = boltz.NewSystemMutateContext(ctx.GetSystemContext())
+			}
+			c.Cover("system_context_via", []string{"GetSystemContext", "NewSystemMutateContext", "GetSystemContext twice", "NewSystemMutateContext over a system context"}[op.SysVia])
+		} else if op.SysVia == 1 {
+			// an ordinary context whose context.Context was replaced stays ordinary
+			use = ctx.UpdateContext(func(cc context.Context) context.Context { return context.WithValue(cc, c16Key{}, "x") })
+			c.Cover("system_context_via", "ordinary after UpdateContext")
 		}
 		switch op.Kind {
 		case "create", "update", "patch":
@@ -196,7 +213,7 @@ func runC16(c *core.Ctx, idx int) {
 			n += 2
 		}
 		for i := 0; i < n; i++ {
-			op := c16Op{Kind: core.Pick(r, []string{"create", "create", "update", "patch", "delete"}), SysCtx: r.Bool(), Flag: r.P(0.4), Name: core.Pick(r, names), Tags: core.Pick(r, tagPool),
+			op := c16Op{Kind: core.Pick(r, []string{"create", "create", "update", "patch", "delete"}), SysCtx: r.Bool(), Flag: r.P(0.4), Name: core.Pick(r, names), Tags: core.Pick(r, tagPool), SysVia: r.Intn(4),
 				Child: r.P(0.4), Extra: core.Pick(r, []string{"x", "y", ""})}
 			var existing []string
 			for id := range scratch {
@@ -394,6 +411,8 @@ func runC16(c *core.Ctx, idx int) {
 		c.Sample(map[string]any{"first_transactions": tailC16(hist[:min(3, len(hist))], 3)})
 	}
 }
+
+type c16Key struct{}
 
 func normTags(t map[string]any) map[string]any {
 	if t == nil {
